@@ -374,9 +374,12 @@ def run(tier, seed):
     fidelity = collections.Counter()
     unbalanced = 0
     pvals = collections.Counter()
-    n_geom = 0
+    n_geom = n_unexecuted = 0
     for call, m, ob in zip(calls, meta, obs):
         if ob is None:
+            if L.ABORTED:
+                n_unexecuted += 1
+                continue
             core.die("no observation for %r" % (call,))
         if m[0] in ("G", "GP"):
             g = gcases[m[1]]
@@ -439,7 +442,7 @@ def run(tier, seed):
 
     # binding demonstration: corrupted expectations must be rejected by the same comparison
     demo = core.sample(matched, 300, rng)
-    if len(demo) < 50:
+    if len(demo) < 50 and not L.ABORTED:
         core.die("binding self-test: only %d matching observations" % len(demo))
     n_demo = 0
     for v, ob, want in demo:
@@ -463,7 +466,7 @@ def run(tier, seed):
         "states": states, "distinct_states": distinct, "transitions": states,
         "traces_validated_against_impl": n_exec, "evaluations": n_exec, "distinct_nontrivial": len(nontrivial),
         "cases_published": len(cases) + len(gcases), "format_cases": len(cases), "geometry_cases": len(gcases),
-        "geometry_executions": n_geom, "executed_per_path_and_verdict": dict(per),
+        "geometry_executions": n_geom, "calls_left_unexecuted_after_repeated_driver_deaths": n_unexecuted, "executed_per_path_and_verdict": dict(per),
         "predicted_hang_calls_not_executed": skipped_hangs, "predicted_crash_calls_not_executed": skipped_crashes, "transcription_vs_code": dict(fidelity),
         "acquisitions_with_unbalanced_release": unbalanced, "value_oracle": dict(pvals), "binding_selftest_cases": n_demo,
         "dtypes": sorted(dtypes), "c_types": [cid for cid, _ in ids], "exhaustive": True,
